@@ -68,8 +68,14 @@ func excluded(r *rand.Rand, tier string) []core.Case {
 	// file area tail shapes
 	hdrOnly := &hu.File{Kind: "fl", GUID: rep16(0xFF), Type: 0xF0, State: 0xF8, CkF: 0xAA}
 	hdrOnly.CkH = hu.HeaderChecksum(hdrOnly, 24)
-	add("last-file-header-only", single(mkFV(0, sectFile(raw(12)), hdrOnly)))
-	add("tail-window", single(mkFV(30, sectFile(raw(6))))) // file ends at ≡ 2 mod 8, 30 bytes follow
+	// since fixes 8039e86 (erased 24-byte tail) and F52 (`offset <= Length-24`) these two are inside the grammar:
+	// they were "excluded points" of round 1, compared with the model only — model and code agreed on losing
+	// the header-only file, and no oracle looked (DESIGN §14 finding 40)
+	cs = append(cs, imgCase("wf-last-file-header-only", single(mkFV(0, sectFile(raw(12)), hdrOnly)), "1"))
+	cs = append(cs, imgCase("wf-tail-window", single(mkFV(30, sectFile(raw(6)))), "1")) // file ends at ≡ 2 mod 8, 30 bytes follow
+	for _, free := range []int{22, 38, 46} { // tails of 16, 32 and 40 bytes behind the aligned end (30 above gives the 24-byte tail)
+		cs = append(cs, imgCase("wf-tail-window", single(mkFV(free, sectFile(raw(6)))), "1"))
+	}
 	add("length-unaligned", single(mkFV(37, sectFile(raw(8)))))
 	// BIOS region shapes
 	add("no-volume", &hu.Img{Bios: &hu.Bios{Tail: rep(0xFF, 1000)}})
